@@ -132,6 +132,7 @@ class Engine:
         if len(parts) >= 2 and isinstance(self.mod.find_def(parts[0]), ast.ClassDef):
             self.cls = parts[0]
         self.obls: list[Obl] = []
+        self._pending_nonnull = []
         self.loop_ord = {}
         self.npaths = 0
         self.pruned = 0
@@ -446,6 +447,16 @@ class Engine:
 
     def ev_BinOp(self, n, st):
         op = SpecEval._binops.get(type(n.op))
+        if op is None and isinstance(n.op, (ast.BitOr, ast.BitAnd)):
+            for st2, ab in self.ev_list([n.left, n.right], st):
+                if isinstance(ab, Raised):
+                    yield st2, ab
+                elif ab[0].ty.kind == "int" and ab[1].ty.kind == "int":
+                    f = ops.UF("bit" + type(n.op).__name__.lower(), z3.IntSort(), z3.IntSort(), z3.IntSort())
+                    yield st2, V(INT, f(ab[0].t, ab[1].t))
+                else:
+                    raise Unsupported("bit operator on %s, %s" % (ab[0].ty, ab[1].ty))
+            return
         if op is None:
             raise Unsupported("binary operator %s" % type(n.op).__name__)
         for st2, ab in self.ev_list([n.left, n.right], st):
@@ -861,7 +872,7 @@ class Engine:
         names = list(c.params)
         env = {}
         args = list(args)
-        star_name = next((p for p in names if c.params[p].kind == "star" and p.startswith("*") and not p.startswith("**")), None)
+        star_name = next((p for p in names if p.startswith("*") and not p.startswith("**")), None)
         dstar_name = next((p for p in names if p.startswith("**")), None)
         plain = [p for p in names if not p.startswith("*")]
         for p, v in zip(plain, args):
@@ -870,7 +881,13 @@ class Engine:
         if extra_pos and not star_name:
             raise Unsupported("too many positional arguments for %s (%s)" % (c.key, what))
         if star_name:
-            env[star_name.lstrip("*")] = starv if starv is not None else vtuple(extra_pos)
+            sty = c.params[star_name]
+            if starv is not None:
+                env[star_name.lstrip("*")] = starv
+            elif sty.kind == "seq":
+                env[star_name.lstrip("*")] = vtuple(extra_pos)      # converted (with None checks) below
+            else:
+                env[star_name.lstrip("*")] = vtuple(extra_pos)
         elif starv is not None:
             raise Unsupported("*args passed to %s which declares none" % c.key)
         extra_kw = {}
@@ -895,9 +912,26 @@ class Engine:
                     raise Unsupported("missing argument %s for %s (%s)" % (p, c.key, what))
                 env[p] = d
         # coerce to declared parameter types
+        for p in names:
+            if p.startswith("*") and c.params[p].kind == "seq":
+                v = env.get(p.lstrip("*"))
+                if v is not None and v.ty.kind == "tuple":
+                    items = []
+                    for x in v.items:
+                        if x.ty.kind == "opt" and c.params[p].args[0].kind not in ("opt", "any"):
+                            self._pending_nonnull.append((x.isnone, p))
+                            x = x.val
+                        items.append(x)
+                    t = z3.Empty(sort_of(c.params[p]))
+                    for x in items:
+                        t = z3.Concat(t, z3.Unit(coerce(x, c.params[p].args[0]).t))
+                    env[p.lstrip("*")] = V(c.params[p], z3.simplify(t))
         for p in plain:
             ty = c.params[p]
             try:
+                if env[p].ty.kind == "opt" and ty.kind not in ("opt", "any") and not ty.is_ref:
+                    self._pending_nonnull.append((env[p].isnone, p))
+                    env[p] = env[p].val
                 v = coerce(env[p], ty)
                 if ty.nullable and not v.ty.nullable:
                     v = V(ty, v.t)
@@ -961,7 +995,11 @@ class Engine:
                 dstarv = nd
             else:
                 dstarv = V(STAR, py=("kwargs-of", src))
+        self._pending_nonnull = []
         env = self.bind(c, args, kwargs, what, starv, dstarv)
+        for isnone, pname in self._pending_nonnull:
+            self.oblige(st, z3.Not(isnone), "pre:%s:arg-%s-not-None" % (c.key.split(":")[-1], pname), "P", "call-pre",
+                        "%s: argument %s may be None where %s is declared (%s)" % (c.key, pname, c.params.get(pname) or c.params.get("*" + pname), what))
         if fval is not None:
             env["self_fn"] = fval
             # callable specs see the caller's variables too (ghost access to ambient objects)
